@@ -15,6 +15,7 @@ package connectors
 // i.e. after the callback let the connection proceed.
 //@ func NewServerConnection
 //@   requires [callback] !isnil(hostKeyCallback)
+//@   assigns nothing
 //@   bind wrapped == HostKeyCallback.Wrap
 //@   ensures [asks-the-trust-object] result != nil && result.config != nil && result.config.HostKeyCallback == wrapped
 //@   ensures [own-server] result.server == server
